@@ -6,6 +6,7 @@ require (
 	github.com/anishathalye/porcupine v1.3.0
 	github.com/influxdata/flux v0.200.0
 	github.com/influxdata/influxdb/v2 v2.0.0
+	github.com/influxdata/influxql v1.4.1
 	golang.org/x/tools v0.41.0
 )
 
@@ -26,7 +27,6 @@ require (
 	github.com/hashicorp/errwrap v1.1.0 // indirect
 	github.com/hashicorp/go-multierror v1.1.1 // indirect
 	github.com/influxdata/httprouter v1.3.1-0.20191122104820-ee83e2772f69 // indirect
-	github.com/influxdata/influxql v1.4.1 // indirect
 	github.com/jsternberg/zap-logfmt v1.2.0 // indirect
 	github.com/jwilder/encoding v0.0.0-20170811194829-b4e1701a28ef // indirect
 	github.com/klauspost/cpuid/v2 v2.2.11 // indirect
